@@ -231,7 +231,9 @@ func (e *Engine) chanRecv(c *ChanV, et types.Type, pos token.Pos) (Value, *Term)
 			continue
 		}
 		en := e.recvEnabled(a.Obj)
-		if !en.IsTrue() && e.hasPending() {
+		if (!en.IsTrue() || a.Obj.Bag) && e.hasPending() {
+			// (bag channels: the parked producers run before the collector collects, whatever is already queued — the same
+			// schedule in symbolic and in concrete re-execution; the ORDER of their results stays a choice)
 			e.fireAllPending()
 			en = e.recvEnabled(a.Obj)
 		}
